@@ -167,7 +167,7 @@ fn noise_string(mut idx: usize, len: usize) -> String {
 pub fn run() -> i32 {
     let mut r = Report::new("C02");
     let thorough = r.thorough();
-    r.rule = "four exhaustive families, every case through compile + Rule::apply per word and through run / trace_changes / get_trace_string: (1) every rule of rulegen(n) x hand-shaped words (thorough: all 7.7 M rules of size 4, on eight words); (1d, thorough) every three-item context / exception of five fixed skeletons; (1c, quick) every two-item environment decoration of five fixed input/output skeletons; (2) every rule at token-edit distance 1 (delete, duplicate, replace by / insert each of 48 tokens) from a frozen corpus of documented, test-suite and example-project rules x 8 words; (3) every string of <= m chars over a 48-char alphabet as rule, word, deromaniser and romaniser; (4) over-large and odd numeric literals in every position that takes digits; (6) every feature / node / suprasegmental spelling and 13 near-names x 11 value forms (binary, alpha, inverted alpha, capital alpha, last Greek letter, malformed) x 12 slots (input, output, context, exception, syllable, structure, insertion, metathesis, both alias directions) and numeric forms x 5 slots; (5) every romaniser whose input is a sequence of 1..k elements over 11 element kinds (segments and matrices with length / stress modifiers, `$`) x 3 replacement kinds, and every deromaniser with such an output, on 10 words with long segments at syllable ends. Oracle: returns Ok or Err within the step budget 2 000 + 20 (|w|+1)(|r|+1); any panic or budget exhaustion is a violation. Non-trivial = returned Ok.".into();
+    r.rule = "four exhaustive families, every case through compile + Rule::apply per word and through run / trace_changes / get_trace_string: (1) every rule of rulegen(n) x hand-shaped words (thorough: all 7.7 M rules of size 4, on eight words); (1d, thorough) every three-item context / exception of five fixed skeletons; (1c, quick) every two-item environment decoration of five fixed input/output skeletons; (2) every rule at token-edit distance 1 (delete, duplicate, replace by / insert each of 48 tokens) from a frozen corpus of documented, test-suite and example-project rules x 8 words; (3) every string of <= m chars over a 48-char alphabet as rule, word, deromaniser and romaniser; (4) over-large and odd numeric literals in every position that takes digits; (6) every feature / node / suprasegmental spelling and 13 near-names x 11 value forms (binary, alpha, inverted alpha, capital alpha, last Greek letter, malformed) x 12 slots (input, output, context, exception, syllable, structure, insertion, metathesis, both alias directions) and numeric forms x 5 slots; (7) three small grammars around constructs that keep state across a retry or a split: ellipsis inputs with a tail, syllables written in place of segments before further outputs, zero-width optionals with every count form; (5) every romaniser whose input is a sequence of 1..k elements over 11 element kinds (segments and matrices with length / stress modifiers, `$`) x 3 replacement kinds, and every deromaniser with such an output, on 10 words with long segments at syllable ends. Oracle: returns Ok or Err within the step budget 2 000 + 20 (|w|+1)(|r|+1); any panic or budget exhaustion is a violation. Non-trivial = returned Ok.".into();
     r.assumptions.push("release build semantics (debug_assert off), as shipped".into());
     r.assumptions.push("stack overflow / allocation failure would abort the check (exit code != 0,1), never pass silently".into());
     let mut tot = Acc::default();
@@ -305,6 +305,29 @@ pub fn run() -> i32 {
     r.boxes.push(json!({"box": "6 modifier grammar: every feature/node/supra spelling + near-names x 11 value forms x 12 slots, numeric forms x 5 slots", "names": names.len(), "lines": mrules.len(), "calls": f6.evals, "ok": f6.ok, "err": f6.err, "crash_classes": f6.crashes.len()}));
     r.guard(f6.ok > 1000 && f6.err > 1000, "modifier family: both Ok and Err outcomes occur");
     tot.merge(f6);
+    // ---- family 7: three small grammars around constructs that keep state across a retry or a split
+    let mut f7 = Acc::default();
+    let mut r7: Vec<String> = vec![];
+    // (a) an ellipsis in the input between / before two further items (each retry of the tail must start from a clean slate), all rule types
+    let el = ["a", "t", "C", "V", "[]"];
+    for x in el { for y in el { for z in el { for o in ["*", "&", "i"] {
+        r7.push(format!("{} ... {} {} > {}", x, y, z, o)); r7.push(format!("{} {} ... {} > {}", x, y, z, o)); r7.push(format!("{} ... {} ... {} > {}", x, y, z, o)); r7.push(format!("{} ... {} {} {} > {}", x, y, y, z, o));
+    } } } }
+    // (b) a syllable (variable or structure) written where a segment stood, followed by further output items
+    for x in ["a", "t", "C", "V"] { for y in ["a", "t", "C", "V"] { for z in ["i", "t", "[+voice]", "2"] {
+        r7.push(format!("{} {}=2 > 1 {} / %=1 _", x, y, z)); r7.push(format!("{} {}=2 > {} 1 / _ %=1", x, y, z)); r7.push(format!("{} {}=2 {} > 1 {} 2 / %=1 _", x, y, x, z)); r7.push(format!("{} {}=2 > ⟨ta⟩ {} 1 / %=1 _", x, y, z));
+    } } }
+    // (c) optionals whose body consumes nothing, with every count form, in every environment position
+    for body in ["#", "$", "", "$ $"] { for cnt in ["", ",0", ",1", ",5", ",3:", ",2:4", ",9999999999999", ",9999999999999:", ",0:9999999999999"] {
+        let o = format!("({}{})", body, cnt);
+        for t in [format!("a > e / _ {}", o), format!("a > e / {} _", o), format!("a > e / _ {} t", o), format!("a > e / t {} _", o), format!("a > e | _ {}", o), format!("* > e / {} _", o), format!("* > e / _ {} a", o), format!("a > * / _ {} #", o), format!("a t > & / {} _", o)] { r7.push(t); }
+    } }
+    for x in ["a", "t", "C", "V", "[]"] { for y in ["a", "t", "C", "V"] { for z in ["i", "t", "[+voice]", "i:[+long]", "$"] { r7.push(format!("{} {} > ⟨ta⟩ {}", x, y, z)); r7.push(format!("{} {} {} > ⟨ta⟩ {} {}", x, y, x, z, z)); } } }
+    let w7 = ["a.p.t.t.t.a", "ta.pa.ta.ta.ta", "pat", "a.t.t.t.a", "tatata", "ta.ta.ta", "attta", "ra.lo.la", "k.at", "ta.tat", "a", "a.ta", "ˈpaː.ta5"];
+    par_fold(r7.len(), 32, Acc::default, |i, a| rule_case(&r7[i], &w7, "stateful", a), |a| f7.merge(a));
+    r.boxes.push(json!({"box": "7 ellipsis inputs with a tail / syllables written in place of segments / zero-width optionals with counts", "rules": r7.len(), "calls": f7.evals, "ok": f7.ok, "err": f7.err, "crash_classes": f7.crashes.len()}));
+    r.guard(f7.ok > 5_000, "family 7: more than 5000 calls returned Ok");
+    tot.merge(f7);
     // ---- family 4: numeric literals
     let nums = ["0", "1", "00", "007", "4294967296", "18446744073709551616", "99999999999999999999", "65536", "99999"];
     let mut f4 = Acc::default();
